@@ -32,7 +32,7 @@ NOTES = ("Static analysis only: every check re-extracts facts from /repo's curre
          "UNDECIDED lines allowed: a rule that no longer recognises the shape of the code says so and decides nothing, "
          "listed under coverage.undecided; VERIF_STRICT=1 makes that exit 2); exit 1 + VIOLATION line = recognised and "
          "deviating; exit 2 = the checker itself is broken (tool build, tree does not compile), never a verdict. "
-         "bin/selftest replays 36 seeded regressions and own must-fire patches (must alarm) and 20 behaviour-preserving "
+         "bin/selftest replays 144 seeded regressions and own must-fire patches (must alarm) and 69 behaviour-preserving "
          "refactorings (must stay silent) against scratch copies.")
 
 NOT_APPLICABLE = {}
@@ -89,7 +89,7 @@ CHECKS = {
         "text": "Every panic-capable construct in the runtime crate that is reachable from the public API is enumerated from "
                 "MIR and must be class-discharged, discharged by a dominating guard on the same terms, or match an exact row "
                 "of the audited triage table; plus progress guards of the retry loops, char-boundary provenance of lexer "
-                "offsets, layout-parser constants, GSS index validity, that generated actions() never hands out Action::Error and generated recognisers contain no unwrap/expect, that every Input::slice range is ordered by construction, and that the GLR driver does not call the recursive forest traversals."
+                "offsets, layout-parser constants, GSS index validity, that generated actions() never hands out Action::Error and generated recognisers contain no unwrap/expect, that every Input::slice range is ordered by construction, that the GLR driver does not call the recursive forest traversals, and that no function reachable from parse() drops a value owning a recursive tree type with compiler-generated drop glue (type graph from the ADT table + Drop terminators; the SPPF is a known finding: stack overflow on long erroneous GLR inputs)."
                 " A new unwrap/index/slice/arith site or a removed "
                 "guard is reported with its call site. Totality is decided modulo the listed invariants; termination of the "
                 "main loops is not decided.",
